@@ -256,8 +256,13 @@ def _scan(res, unit):
                 configs.append((L, reverse, unroll, xform, oax, cci, split))
   plain_init = np_tree(ScanBody(d=body).init(key_rngs, jnp.zeros((2,)), jnp.zeros((2,))))
   for (L, reverse, unroll, xform, oax, cci, split) in configs:
+    # one (L, reverse, unroll) combination per operand form leaves `length` to be inferred from
+    # the operands' scan axes (every other combination passes it explicitly)
+    infer = xform != 'bcast' and L == 3 and not reverse and unroll == 1
     cfg = dict(body=unit['body'], roles=roles, L=L, reverse=reverse, unroll=unroll, xs=xform,
                out_axis=oax, check_constancy=cci, split=split)
+    if infer:
+      cfg['length'] = 'inferred'
     key = repr(sorted(cfg.items()))
     xs_arr = (np.arange(L * 2, dtype=np.float32).reshape(L, 2) % 3) + 1 + (seed % 2)
     if xform == 'arr0':
@@ -287,8 +292,8 @@ def _scan(res, unit):
     S = nn.scan(ScanBody, variable_axes=vaxes, variable_broadcast=vbc or False,
                 variable_carry=vcarry or False,
                 split_rngs={'params': True, 'dropout': bool(split)},
-                in_axes=in_axes, out_axes=oax, length=L, reverse=reverse, unroll=unroll,
-                check_constancy_invariants=cci)
+                in_axes=in_axes, out_axes=oax, length=None if infer else L, reverse=reverse,
+                unroll=unroll, check_constancy_invariants=cci)
     order = list(range(L))[::-1] if reverse else list(range(L))
     jx = lambda t: jax.tree.map(jnp.asarray, t)
 
